@@ -272,7 +272,10 @@ func (s *InMemoryStore) UpdateOffsets(ctx context.Context, topic string, partiti
 	}
 	s.mu.Lock()
 	defer s.mu.Unlock()
-	s.offsets[partitionKey(topic, partition)] = lastOffset + 1
+	// The end offset only moves forward (see EtcdStore.UpdateOffsets).
+	if key := partitionKey(topic, partition); lastOffset+1 > s.offsets[key] {
+		s.offsets[key] = lastOffset + 1
+	}
 	return nil
 }
 
